@@ -38,6 +38,8 @@ type CrashPlan struct {
 	Rotate  int64 // WAL head size limit: the WAL rotates (checked after every stimulus); 0 = no rotation
 	Second  bool  // a second crash during recovery / the following heights: SecondQ durable units after the restart
 	SecondQ int
+	Round2  bool // even heights need two rounds: the round-1 proposal and its parts are not forwarded (nil votes, timeouts
+	// and a second proposer in the WAL at the crash points)
 	Late    bool // crash at the LAST instant with durable prefix p: just before unit p+1 is written (everything the
 	// node did since unit p - handled and gossiped messages included - is lost with the unsynced buffers)
 }
@@ -114,6 +116,14 @@ func CrashCase(c *core.Case, plan CrashPlan, p int) {
 	hist := NewSetHistory(RefSetFrom(net.Correct()[0].CS.VerifState().Validators))
 	agree := NewAgreementMonitor(al, hist)
 	net.Mons = []Monitor{agree, NewRulesMonitor(al, hist)}
+	defer func() {
+		// what the monitors saw in this case (commits in later rounds, justified precommits, ...)
+		for _, k := range []string{"commits_in_round_gt1", "agreeing_commits", "precommits_justified_by_polka", "signed_nil_prevote", "signed_nil_precommit", "prevotes_for_locked_block"} {
+			if v := al.Counts[k]; v > 0 {
+				run.Count("mon:"+k, v)
+			}
+		}
+	}()
 	if err := net.StartAll(); err != nil {
 		run.Inconclusive("crash case: network start failed: " + err.Error())
 		return
@@ -121,6 +131,9 @@ func CrashCase(c *core.Case, plan CrashPlan, p int) {
 	victim := net.Nodes[plan.Victim]
 	if plan.VotesFirst {
 		votesFirstFilter(net, plan.Victim)
+	}
+	if plan.Round2 {
+		round2Filter(net)
 	}
 	startIdx := victim.Dur.Len()
 	if p < startIdx {
@@ -550,6 +563,9 @@ func GoldenLen(plan CrashPlan) (total int, start int, err error) {
 	if plan.VotesFirst {
 		votesFirstFilter(net, plan.Victim)
 	}
+	if plan.Round2 {
+		round2Filter(net)
+	}
 	if plan.Rotate > 0 {
 		gv := net.Nodes[plan.Victim]
 		net.AfterStimulus = func(n *Node) {
@@ -607,6 +623,20 @@ func votesFirstFilter(net *Net, v int) {
 		}
 		_, ok := pv.TwoThirdsMajority()
 		return ok
+	}
+}
+
+// round2Filter keeps the round-1 proposal and block parts of even heights from being forwarded: those heights are
+// decided in round 2 (everybody but the proposer prevotes and precommits nil in round 1).
+func round2Filter(net *Net) {
+	net.Filter = func(from, to *Node, m consensus.Message) bool {
+		switch x := m.(type) {
+		case *consensus.ProposalMessage:
+			return !(x.Proposal.Height%2 == 0 && x.Proposal.Round == 1)
+		case *consensus.BlockPartMessage:
+			return !(x.Height%2 == 0 && x.Round == 1)
+		}
+		return true
 	}
 }
 
